@@ -344,10 +344,17 @@ func (checkC18) Run(env *Env, sc *Scenario) (*Violation, error) {
 			env.Stats.Probes["api_call_while_block_tx_open"] += nOpen
 			env.Stats.Seen("sched:" + shortHash(fmt.Sprint(trace)))
 		}
+		if api.LeakedCursors > 0 {
+			env.Stats.Probes["api_handler_returned_with_an_open_cursor"] += api.LeakedCursors
+		}
 		// ---- oracle 2: crash freedom
 		if exit != "" {
+			why := ""
+			if api.LeakedCursors > 0 {
+				why = fmt.Sprintf(" (an API handler returned with %d result set(s) still open: the cursor keeps its read lock, the block COMMIT gets \"database is locked\")", api.LeakedCursors)
+			}
 			viol = &Violation{Prop: "C18", Oracle: "sync-survives-api-load", Signature: "sync goroutine dies under API load: " + normErr(exit) + " at " + panicSite(stack),
-				Detail: fmt.Sprintf("at height %d: %s\n%s", synced+1, exit, trunc(stack, 1200))}
+				Detail: fmt.Sprintf("at height %d: %s%s\n%s", synced+1, exit, why, trunc(stack, 1200))}
 			return
 		}
 		if !ok {
